@@ -30,6 +30,8 @@ pub struct Gadget {
     /// operations applied to the input witnesses BEFORE the gadget (a non-initial
     /// composer state: the inputs have a history); run honestly, not explored
     pub prelude: Option<PreludeFn>,
+    /// the prelude's allocations belong to the adversary too (window starts before it)
+    pub explore_prelude: bool,
 }
 
 pub type PreludeFn = Arc<dyn Fn(&mut Composer, &[Witness]) -> Result<(), Error> + Send + Sync>;
@@ -59,7 +61,7 @@ impl Gadget {
     where
         F: Fn(&mut Composer, &[Witness]) -> Result<Vec<Witness>, Error> + Send + Sync + 'static,
     {
-        Gadget { name: name.to_string(), inputs, f: Arc::new(f), const_handles: false, prelude: None }
+        Gadget { name: name.to_string(), inputs, f: Arc::new(f), const_handles: false, prelude: None, explore_prelude: false }
     }
     /// The circuit: allocate the pinned inputs, run the gadget, record the
     /// adversary-controlled ordinal range and the returned witnesses.
@@ -70,6 +72,7 @@ impl Gadget {
         let f = self.f.clone();
         let const_handles = self.const_handles;
         let prelude = self.prelude.clone();
+        let explore_prelude = self.explore_prelude;
         let p = Prog::new(move |c| {
             let ins: Vec<Witness> = inputs
                 .iter()
@@ -91,10 +94,11 @@ impl Gadget {
             for x in &ins {
                 c.append_gate(Constraint::new().mult(1).a(*x).b(Composer::ZERO));
             }
+            let before_prelude = c.verif_witness_count();
             if let Some(pre) = &prelude {
                 pre(c, &ins)?;
             }
-            let lo = c.verif_witness_count();
+            let lo = if explore_prelude { before_prelude } else { c.verif_witness_count() };
             let outs = f(c, &ins)?;
             let hi = c.verif_witness_count();
             // consumer rows for the returned witnesses, same shape: detaching a
